@@ -11,10 +11,11 @@ RULE = ("text and binary rows whose cells produce logical messages of k*M+d byte
 ASSUMPTIONS = ["real-limit cases are checked against the specification oracle only (theorems are parametric in M)"]
 
 
-def row_case(cid, lim, cell_lens, binary=False):
+def row_case(cid, lim, cell_lens, binary=False, implicit=False):
     cs = [dict(table=b"", name=b"c%d" % i, type=253, flags=0) for i in range(len(cell_lens))]
     cells = [bytes([97 + i % 26]) * n for i, n in enumerate(cell_lens)]
-    prog = "start %s %s er p fin" % (progs.cols_tok(cs), " ".join("wc b:%s p" % hexspec(c) for c in cells))
+    # implicit: the row is not ended by end_row but by the finish that follows (same bytes expected)
+    prog = "start %s %s %sfin" % (progs.cols_tok(cs), " ".join("wc b:%s p" % hexspec(c) for c in cells), "" if implicit else "er p ")
     if binary:
         cmds = [("prepare", cmd_prepare(b"p")), ("execute", cmd_execute(1)), ("ping", cmd_ping())]
         scripts = ["p reply 1 0 0", "x all - " + prog]
@@ -68,7 +69,7 @@ def run(ctx):
                     if not lens:
                         continue
                     n += 1
-                    cases.append(row_case("c04_%d" % n, lim, lens, binary))
+                    cases.append(row_case("c04_%d" % n, lim, lens, binary, implicit=rng.random() < 0.35))
                     if rng.random() < 0.3:
                         cases[-1].wcap = rng.choice([1, 2, 7])     # a transport that accepts only part of each write
     ctx.diff_conn(cases, oracle=oracle, nontrivial=lambda c, o: c.meta["msglen"] >= c.lim,
